@@ -177,7 +177,6 @@ def contents_failures(buf, C, E, fills, when) -> list[tuple[str, str]]:
     fails = []
     rows = decode_rows(buf)
     nE = max(E, 1)
-    pos = np.asarray(buf.position).reshape(-1)
     dones = np.asarray(buf.dones).reshape(nE, C)
     timeouts = np.asarray(buf.timeouts).reshape(nE, C)
     for e in range(nE):
@@ -198,12 +197,6 @@ def contents_failures(buf, C, E, fills, when) -> list[tuple[str, str]]:
         got = sorted(int(round(float(x))) for x in ref if round(float(x)) != 0)
         if got != want:
             fails.append(("C06/contents/not-most-recent", f"{when}: C={C} E={E} fills={fills} env {e}: stored tags {got}, reference deque {want}"))
-        stored_ref = min(fills[e], C)
-        cs = np.asarray(buf.current_size).reshape(-1)[e]
-        if int(cs) != stored_ref:
-            fails.append(("C06/contents/current-size", f"{when}: env {e} current_size={int(cs)} reference {stored_ref}"))
-        if int(pos[e]) != fills[e]:
-            fails.append(("C06/contents/position", f"{when}: env {e} position={int(pos[e])} insertions {fills[e]}"))
     return fails
 
 
@@ -321,6 +314,96 @@ def explore(ctx: Ctx):
         ctx.run("path", cases)
         ctx.traces += len(cases)
         ctx.run("diamond", diamonds)
-    ctx.require("wrapped", "unequal-fill", "wrapped-twice")
+    # secondary model-based pass: TLC-verified TLA+ ring model, all edges replayed against the real add()
+    tlc_cfgs = [(1, 1, 4, 0), (2, 1, 7, 0), (3, 1, 10, 0), (2, 1, 5, 1), (2, 2, 4, 2), (3, 2, 5, 2)] + ([(2, 3, 3, 3), (4, 2, 6, 2), (5, 1, 16, 0)] if thorough else [])
+    ctx.run("tlc", [dict(C=C, E=E, MaxN=M, real_E=rE) for (C, E, M, rE) in tlc_cfgs])
+    ctx.notes["tlc_model"] = "models/Ring.tla: invariants MostRecent, ValidIsWritten, NoDuplicates verified by TLC for " + str(tlc_cfgs)
+    ctx.require("wrapped", "unequal-fill", "wrapped-twice", "tlc-edges")
     ctx.notes["configs_(C,E)"] = configs
     ctx.notes["keys"] = len(keys)
+
+
+# ---------------------------------------------------------------------------------------
+# secondary: TLA+ model (models/Ring.tla) checked by TLC, every edge of its state graph replayed on the real buffer
+# ---------------------------------------------------------------------------------------
+def tlc_graph(C: int, E: int, MaxN: int):
+    """Run TLC on models/Ring.tla and return (nodes: id -> (pos tuple, slots tuple of tuples), edges: [(u, env, v)], init id)."""
+    import os
+    import re
+    import shutil
+    import subprocess
+    import tempfile
+
+    from mc.core import VERIF, HarnessError
+
+    d = tempfile.mkdtemp(prefix="c06_tlc_", dir="/tmp")
+    try:
+        shutil.copy(os.path.join(VERIF, "models", "Ring.tla"), d)
+        with open(os.path.join(d, "Ring.cfg"), "w") as f:
+            f.write(f"CONSTANTS\n  C = {C}\n  E = {E}\n  MaxN = {MaxN}\nINIT Init\nNEXT Next\nINVARIANTS MostRecent ValidIsWritten NoDuplicates\n")
+        r = subprocess.run(["tlc", "-workers", "1", "-noGenerateSpecTE", "-metadir", os.path.join(d, "meta"), "-deadlock", "-dump", "dot,actionlabels", os.path.join(d, "g"), "Ring"],
+                           cwd=d, capture_output=True, text=True, timeout=600)
+        if "No error has been found" not in r.stdout:
+            raise HarnessError(f"TLC did not verify models/Ring.tla for C={C} E={E} MaxN={MaxN}: {r.stdout[-400:]} {r.stderr[-200:]}")
+        dot = open(os.path.join(d, "g.dot")).read()
+    finally:
+        shutil.rmtree(d, ignore_errors=True)
+    nodes, edges = {}, []
+    seq = lambda s: tuple(int(x) for x in re.findall(r"-?\d+", s))
+    for m in re.finditer(r'^(-?\d+) \[label="/\\\\ pos = <<([^>]*)>>\\n/\\\\ slots = <<(.*?)>>"', dot, re.M):
+        pos = seq(m.group(2))
+        rows = tuple(seq(x) for x in re.findall(r"<<([^<>]*)>>", m.group(3)))
+        nodes[m.group(1)] = (pos, rows)
+    for m in re.finditer(r'^(-?\d+) -> (-?\d+) \[label="Add\((\d+)\)"', dot, re.M):
+        edges.append((m.group(1), int(m.group(3)) - 1, m.group(2)))
+    init = next(k for k, (pos, rows) in nodes.items() if not any(pos))
+    if len(nodes) != (MaxN + 1) ** E or not edges:
+        raise HarnessError(f"unexpected TLC state graph for C={C} E={E} MaxN={MaxN}: {len(nodes)} nodes {len(edges)} edges")
+    return nodes, edges, init
+
+
+def real_state(buf, C, E):
+    """slots (tuple of tuples) of the real buffer in the model's tag space; bookkeeping fields (position, current_size)
+    are deliberately not read: the statement is about contents and sampling only"""
+    nE = max(E, 1)
+    tags = np.rint(np.asarray(buf.rewards).reshape(nE, C) * 4.0).astype(int)
+    return tuple(tuple(int(t - e * 1000) if t != 0 else 0 for t in tags[e]) for e in range(nE))
+
+
+def clause_tlc(cases, ctx: Ctx):
+    """case: {C, E (model environments), MaxN, real_E}: conformance of the real add() with every edge of the TLC graph"""
+    out = []
+    for ci, c in enumerate(cases):
+        C, E, MaxN, rE = c["C"], c["E"], c["MaxN"], c["real_E"]
+        nodes, edges, init = tlc_graph(C, E, MaxN)
+        # BFS tree paths in the MODEL graph
+        succ = {}
+        for u, e, v in edges:
+            succ.setdefault(u, []).append((e, v))
+        path = {init: []}
+        order = [init]
+        for u in order:
+            for e, v in sorted(succ.get(u, [])):
+                if v not in path:
+                    path[v] = path[u] + [e]
+                    order.append(v)
+        if len(path) != len(nodes):
+            raise AssertionError("harness: model graph not connected")
+        for u, e, v in edges:
+            buf, fills, _ = build(C, rE, path[u], check_prefixes=False)
+            if real_state(buf, C, rE) != nodes[u][1]:
+                out.append((ci, "C06/tlc/state-mismatch", f"C={C} E={rE}: replaying model path {path[u]} on the real buffer gives {real_state(buf, C, rE)}, model state {nodes[u]}"))
+                break
+            buf2, _, fl = build(C, rE, path[u] + [e], check_prefixes=False)
+            got = real_state(buf2, C, rE)
+            if got != nodes[v][1]:
+                out.append((ci, "C06/tlc/edge-mismatch", f"C={C} E={rE}: from model state {nodes[u]} the event Add(env {e}) leads the model to {nodes[v]} but the real ReplayBuffer.add to {got}"))
+                break
+            ctx.transitions += 1
+        ctx.states += len(nodes)
+        ctx.traces += len(edges)
+        ctx.guard("tlc-edges", len(edges))
+    return out
+
+
+CLAUSES["tlc"] = clause_tlc
